@@ -236,7 +236,6 @@ func properties() map[string]*PropertySpec {
 						out = append(out, &Instance{Harness: "H_C06", Args: []int64{l, n, 6}, Lang: int(l), MaxWitnesses: 2})
 					}
 				}
-				out = append(out, &Instance{Harness: "H_C06", Args: []int64{2, 12, 17}, Lang: 2, MaxWitnesses: 2})
 				out = append(out, instLS("H_C06", []int64{0, 1, 3, 4, 6, 7, 8, 9}, sizesN, 3)...)
 			} else {
 				out = instLS("H_C06", []int64{2, 5}, sizesN, 4)
@@ -253,7 +252,7 @@ func properties() map[string]*PropertySpec {
 			}
 			return out
 		},
-		Bounds:  []string{"word count n in {12,15,18,21,24}", "at most R Read calls per NewMnemonic with symbolic fragment sizes and failures (quick R=4 for English/Japanese, R=2 others; thorough R=6, R=17 for n=12)", "plus the fixed one-byte fragmentation of the whole delivery preceded by z idle reads (4n/3+z calls, z<=1 quick, z<=3 thorough; delivered bytes symbolic)", "each Read: symbolic fragment size 0..len(p), symbolic outcome nil/io.EOF/io.ErrUnexpectedEOF/other error/error that calls itself temporary, bytes may accompany an error", "io.ReadFull / io.ReadAtLeast executed from their real SSA"},
+		Bounds:  []string{"word count n in {12,15,18,21,24}", "at most R Read calls per NewMnemonic with symbolic fragment sizes and failures (quick R=4 for English/Japanese, R=2 others; thorough R=6 for English/Japanese, R=3 others)", "plus the fixed one-byte fragmentation of the whole delivery preceded by z idle reads (4n/3+z calls, z<=1 quick, z<=3 thorough; delivered bytes symbolic)", "each Read: symbolic fragment size 0..len(p), symbolic outcome nil/io.EOF/io.ErrUnexpectedEOF/other error/error that calls itself temporary, bytes may accompany an error", "io.ReadFull / io.ReadAtLeast executed from their real SSA"},
 		Outside: []string{"sources needing more than R reads (paths end in an assumption)", "readers violating the io.Reader contract (n > len(p), n < 0)"},
 		Stubs:   []string{stubSHA, stubBig, stubStr},
 	}
